@@ -63,6 +63,9 @@ def run_jobs(docs, cfgs, base):
         flags = [f for f in cfg_flags(c) if not (d.mode == "proto" and f == "--keep")]
         if d.dedup:
             flags += ["--dedup", ",".join(d.dedup)]
+        for rel, items in getattr(d, "touch", {}).items():
+            flags += ["--touch", "%s:%s" % (os.path.join(idl_dir, d.name, rel), ",".join(items))]
+        flags += [f for f in getattr(d, "flags", []) if f not in flags]
         inc = [os.path.join(idl_dir, d.name)] if d.mode == "proto" else []
         t0 = time.time()
         rc, log = gen.run_builder(vgen, d.mode, [main], out, flags, include_dirs=inc, timeout=60)
